@@ -103,6 +103,9 @@ def rule_statics(check):
     check.expect(not tl, R, R + "/thread-local", "-", "no thread_local!", "thread-local state: %s" % [f.def_path for f in tl])
     for c in prog.facts["consts"]:
         ty = c.get("ty", "")
+        if "LocalKey<" in ty:
+            check.bad(R, R + "/thread-local/" + c["def"], hir.loc(c), "thread-local state %s: %s survives from one rewrite call to the next on the same thread" % (c["def"], ty))
+            continue
         if any(x in ty for x in ("OnceCell", "OnceLock", "Lazy", "LazyLock", "Mutex", "RwLock", "RefCell")) and not c.get("gen"):
             check.bad(R, R + "/lazy/" + c["def"], hir.loc(c), "lazily initialised / lockable global %s: %s" % (c["def"], ty))
     return reach
